@@ -41,12 +41,20 @@ def plan(tier, seed):
             # several states share one rate expression: each is linearised in its own state
             text = "parameters(k=-0.5, tau=2.0, b=0.75)\nstates(x0=0.75, x1=1.25, x2=-0.5)\n\nw = 0.5 + x0 * x0 / 4\n" + "".join(f"dx{q}_dt = {e}\n" for q in range(3))
             specs.append({"klass": "identical_rates", "i": 1200 + 3 * j + ("numpy", "c", "jax").index(be), "text": text, "backend": be, "delta": 1e-8})
+    for j, sh in enumerate(["linear_k", "affine"]):
+        for be in ("numpy", "c", "jax"):
+            for q, d0 in enumerate((0, 0.0)):
+                # delta = 0 is an option like any other ("the delta option is honoured"): only g == 0 takes the Euler branch.  The
+                # coefficient is placed far below the default 1e-8 and the step is long enough for exp(g dt) to differ from 1 + g dt
+                specs.append({"klass": "delta_zero:" + sh, "i": 1300 + 6 * j + 2 * ("numpy", "c", "jax").index(be) + q, "shapes": [sh, sh], "backend": be, "delta": d0, "tiny_k": True})
     for s in specs:
         s["prop"] = ID
         s.setdefault("soft_timeout", 150)
     return specs
 
 
+TINY_K = [5e-9, -5e-9, 1e-9, -2e-10, 0.0]
+LONG_DTS = [2e8, 1e8, 1e9, 0.5]
 IDENTICAL_RATES = ["k * x0 * x1 + 0.25", "-(x0 * x0) * x1 / tau + x2", "(x1 - x0) / tau - x2 * 0.125", "w * (1 - x0) - 0.3 * x1 * x2", "exp(-x0) * x1 - x0 * x2", "k * x0 + k * x1 * 2 + k * x2 * 3"]
 
 
@@ -133,7 +141,7 @@ def run_case(spec, ctx):
         for pt, res, dec in base_pts:
             pts.append((pt, res))
             if "k" in ref.params and "tau" in ref.params:
-                for kv in rng.sample(k_values(delta), 3):
+                for kv in (TINY_K[:4] if spec.get("tiny_k") else rng.sample(k_values(delta), 3)):
                     p2 = dict(pt, k=kv, tau=rng.choice(TAUS))
                     r2, _ = ref.evaluate(p2)
                     pts.append((p2, r2))
@@ -145,7 +153,8 @@ def run_case(spec, ctx):
         for j, (pt, res) in enumerate(pts):
             calls.append(("rhs", pt, None, None))
             meta.append(("rhs", j, None))
-            for dt in (DTS[j % len(DTS)], DTS[(j + 2) % len(DTS)]):
+            dts = LONG_DTS if spec.get("tiny_k") else DTS
+            for dt in (dts[j % len(dts)], dts[(j + 2) % len(dts)]):
                 calls.append((fn, pt, dt, None))
                 meta.append((fn, j, dt))
         rs = m.run(calls)
